@@ -328,6 +328,12 @@ def q_r3_dispatch(p: Project, schema: Schema, rep: Report):
                     ok = isinstance(kk.value, ast.Attribute) and kk.value.attr == kk.arg
                     rep.check("Q-R3", f"{tname}->{call.func.attr}:{kk.arg}", ok, f"{kk.arg} is filled from {text(kk.value)}" if not ok else "", loc(p, call))
         # wrapper class is a member of the message set
+        try:
+            from .flat import flat as _flat
+
+            builder = _flat(p, CLIENT, builder, ci)  # a private helper may do the wrapping
+        except Exception:
+            pass
         brets = [r for r in own_nodes(builder) if isinstance(r, ast.Return) and isinstance(r.value, ast.Call)]
         wcls = [p.resolve(CLIENT, text(r.value.func)) for r in brets]
         members = [c.target for c in schema.spec(msgcls).values() if c.kind == "ListAggregate"] if isinstance(msgcls, ClassInfo) else []
